@@ -23,6 +23,7 @@ import (
 	"fmt"
 	"runtime"
 	"sort"
+	"strings"
 	"sync"
 	"time"
 
@@ -61,9 +62,10 @@ type liveCfg struct {
 
 func tierCfg(tier string) ([]bfsCfg, liveCfg) {
 	if tier == "thorough" {
+		// 6561 contents x 1788 batches = 11.7M transitions, and 6561 x 276 = 1.8M
 		return []bfsCfg{
 				{sel: []int{tk.Z, tk.L01, tk.L02, tk.L08, tk.L10, tk.L20, tk.L80, tk.B0}, maxk: 3},
-				{sel: []int{tk.Z, tk.L01, tk.L10, tk.B8, tk.B4, tk.B3, tk.B1, tk.B0}, maxk: 3},
+				{sel: []int{tk.Z, tk.L01, tk.L10, tk.B8, tk.B4, tk.B3, tk.B1, tk.B0}, maxk: 2},
 			},
 			liveCfg{sel: []int{tk.Z, tk.L01, tk.L08, tk.L10, tk.B0}, maxk: 2, d: 3}
 	}
@@ -114,6 +116,20 @@ func f1(c tk.Content, b tk.Batch) bool {
 	return false
 }
 
+// kindOf names the oracle that failed (the text before the first ':' of an observation).
+func kindOf(msg string) string {
+	for i := 0; i < len(msg); i++ {
+		if msg[i] == ':' || msg[i] == '!' {
+			msg = msg[:i]
+			break
+		}
+	}
+	if len(msg) > 4 && msg[:4] == "root" {
+		return "root_differs_from_reference"
+	}
+	return strings.ReplaceAll(strings.TrimSpace(msg), " ", "_")
+}
+
 func lcp(a, b []byte) int {
 	for i := 0; i < 256; i++ {
 		if (a[i/8]^b[i/8])&(1<<uint(7-i%8)) != 0 {
@@ -152,9 +168,11 @@ func reach(m map[string][]byte, root []byte, out map[string][]byte) error {
 		}
 		slot := v[4+33*j : 4+33*(j+1)]
 		j++
-		// children of the bottom row are roots of other batches unless they are shortcut leaves
-		// (flag 1) or the key/value copies under a shortcut (flag 2)
-		if i >= 15 && slot[32] == 0 {
+		// children of the bottom row are roots of other batches stored under their own hash:
+		// interior nodes (flag 0) and shortcut leaves (flag 1; leafHash/moveUpShortcut store a
+		// shortcut that sits on a batch boundary as a one-entry shortcut batch). Only the
+		// key/value copies under a shortcut of the row above (flag 2) are inline data.
+		if i >= 15 && slot[32] != 2 {
 			if err := reach(m, slot[:32], out); err != nil {
 				return err
 			}
@@ -212,6 +230,10 @@ func step(st db.DB, s *state, b tk.Batch) (r stepResult) {
 	newRoot := append([]byte{}, t.Root...)
 	if ref := tk.RefRoot(want); !bytes.Equal(newRoot, ref) {
 		r.msg = fmt.Sprintf("root %x != reference root %x of content %v (history dependence)", newRoot, ref, want)
+		// say also whether the map answers are still right at the non-canonical root
+		if err := tk.CheckReads(trie.NewTrie(append([]byte{}, newRoot...), common.Hasher, st), want); err != nil {
+			r.msg = "root and reads wrong: " + r.msg + "; " + err.Error()
+		}
 		return
 	}
 	// fresh instance on the stored data
@@ -285,6 +307,7 @@ func runBFS(ctx *xplor.Ctx, cfg bfsCfg, tag string) {
 						r := step(st, s, b)
 						ctx.Eval(1)
 						ctx.Trans(1)
+						ctx.Trace(1) // the transition IS an execution of the real Update+Commit
 						if r.stale {
 							ctx.Count("transitions_rewriting_a_stored_node", 1)
 						}
@@ -300,6 +323,9 @@ func runBFS(ctx *xplor.Ctx, cfg bfsCfg, tag string) {
 								nF1++
 							}
 							mu.Unlock()
+							if sig != "" {
+								ctx.Count("f1_transitions_"+kindOf(r.msg), 1)
+							}
 							if report {
 								ctx.Violation(sig, fmt.Sprintf("keys %v: from %v (after %d batches) batch %v: %s", tk.Names, s.c, len(s.path), b, r.msg),
 									replay{Mode: "bfs", Sel: cfg.sel, Path: path})
@@ -438,6 +464,7 @@ func runLiveAll(ctx *xplor.Ctx, cfg liveCfg) {
 					continue
 				}
 				ctx.Eval(1)
+				ctx.Trace(1)
 				i, msg, isF1 := runLive(st, n, j.steps)
 				if i >= 0 {
 					sig := ""
@@ -539,9 +566,9 @@ func main() {
 		Shards: func(tier string) int { return 1 },
 		Budget: func(tier string) time.Duration {
 			if tier == "thorough" {
-				return 25 * time.Minute
+				return 45 * time.Minute
 			}
-			return 5 * time.Minute
+			return 8 * time.Minute
 		},
 		Run: run,
 	})
